@@ -967,7 +967,7 @@ def body_strings(data) -> Outcome:
 
 # ---- campaign: atheris fuzzing (thorough tier only) --------------------------------------------
 FUZZ_SCRIPT = os.path.join(boot.VERIF, "fuzz", "mapspec_fuzz.py")
-FUZZ_RUNS = 400_000
+FUZZ_RUNS = 250_000
 
 
 def enum_fuzz_runs():
@@ -999,6 +999,15 @@ def body_fuzz(data) -> Outcome:
     env = dict(os.environ, VERIF_REPO=boot.REPO, MAPSPEC_FUZZ_REPORT=report, PYTHONHASHSEED="0")
     cmd = [sys.executable, FUZZ_SCRIPT, f"-runs={int(data['runs'])}", f"-seed={int(data['seed'])}", "-max_len=64",
            f"-dict={dict_path}", "-print_final_stats=1", f"-artifact_prefix={work}/", corpus]  # fmt: skip
+    # libFuzzer's value-profile features depend on load addresses: without ASLR a (seed, runs) pair replays exactly
+    noaslr = ["setarch", os.uname().machine, "-R"]
+    try:
+        if subprocess.run([*noaslr, "true"], stdout=subprocess.DEVNULL, stderr=subprocess.DEVNULL).returncode == 0:
+            cmd = noaslr + cmd
+        else:
+            out.labels.append("aslr-on")
+    except OSError:
+        out.labels.append("aslr-on")
     try:
         p = subprocess.run(cmd, env=env, cwd=work, stdout=subprocess.PIPE, stderr=subprocess.STDOUT, text=True, timeout=900)
         rc, log = p.returncode, p.stdout
@@ -1019,9 +1028,8 @@ def body_fuzz(data) -> Outcome:
     execs = int(rep.get("execs", 0))
     out.units = max(1, execs)
     out.nontrivial = int(rep.get("accepted", 0)) >= 1000
-    mt = re.search(r"stat::average_exec_per_sec:\s+(\d+)", log)
-    if mt:
-        eps = int(mt.group(1))
+    if execs and rep.get("elapsed_s"):  # label only (libFuzzer's own final stats are lost when the target exits 3)
+        eps = execs / max(float(rep["elapsed_s"]), 1e-3)
         out.labels.append("exec/s " + ("<10k" if eps < 10000 else "10k-25k" if eps < 25000 else "25k-50k" if eps < 50000 else ">=50k"))
     for exc in rep.get("rejected", {}):
         out.labels.append(f"saw-rejection-{exc}")
@@ -1039,21 +1047,21 @@ def body_fuzz(data) -> Outcome:
 # ------------------------------------------------------------------------------------------------
 def campaigns(tier):
     camps = [
-        Campaign("parse", body_parse, spec_case(), quick=4000, thorough=120000,
+        Campaign("parse", body_parse, spec_case(), quick=4000, thorough=80000,
                  describe="print with drawn whitespace -> from_string vs constructors; str/round trip; accessors"),
-        Campaign("shape", body_shape, spec_case(), quick=2500, thorough=60000,
+        Campaign("shape", body_shape, spec_case(), quick=2500, thorough=40000,
                  describe="shape()/mask reference; single-fault shape dictionaries must raise ValueError"),
-        Campaign("keys", body_keys, spec_case(), quick=2000, thorough=40000,
+        Campaign("keys", body_keys, spec_case(), quick=2000, thorough=25000,
                  describe="output_key / input_keys over every linear index; denotation on NumPy arrays"),
         Campaign("keys-exhaustive", body_keys_exhaustive, enumerate=enum_key_shapes, quick=0, thorough=0, exhaustive=True,
                  describe="output_key/input_keys/shape_to_strides for every shape of rank 0-4 with sizes 1-4"),
-        Campaign("rewrite", body_rewrite, rewrite_case(), quick=2500, thorough=60000,
+        Campaign("rewrite", body_rewrite, rewrite_case(), quick=2500, thorough=40000,
                  describe="rename (subset, swap, no match, empty) and add_axes (new, duplicate, None)"),
-        Campaign("lists", body_lists, list_case(), quick=2500, thorough=60000,
+        Campaign("lists", body_lists, list_case(), quick=2500, thorough=40000,
                  describe="validate_consistent_axes / mapspec_axes / mapspec_dimensions on chains of 1-3 specs"),
-        Campaign("malformed", body_malformed, malformed_case(), quick=4000, thorough=100000,
+        Campaign("malformed", body_malformed, malformed_case(), quick=4000, thorough=60000,
                  describe="single-mutation malformed specs through constructors and from_string"),
-        Campaign("strings", body_strings, string_case(), quick=4000, thorough=150000,
+        Campaign("strings", body_strings, string_case(), quick=4000, thorough=100000,
                  describe="token soup and edited valid strings: laws on every accepted string"),
     ]  # fmt: skip
     if tier == "thorough":
